@@ -12,31 +12,38 @@ import (
 	"gmqttverif/internal/ssax"
 )
 
-// chanIdent names a channel value: the struct field it is loaded from, or the parent's variable cell for a captured local.
+// chanIdent names a channel value: the struct field it is loaded from, or the variable cell of a local channel
+// (the parent's cell for a captured one). Deterministic: follows the direct load chain only.
 func chanIdent(v ssa.Value) string {
-	for x := range ssax.Backward(v) {
-		switch y := x.(type) {
+	for i := 0; i < 8; i++ {
+		switch x := v.(type) {
+		case *ssa.UnOp:
+			if x.Op != token.MUL {
+				return ""
+			}
+			v = x.X
 		case *ssa.FieldAddr:
-			if _, isCh := ssax.Deref(y.Type()).Underlying().(interface{ Dir() int }); isCh {
-			}
-			o := ssax.FieldOwner(y)
-			if o != "" {
-				if fa := ssax.FieldOf(y); fa != nil {
-					if strings.HasPrefix(fa.Type().Underlying().String(), "chan") || strings.HasPrefix(fa.Type().Underlying().String(), "<-chan") {
-						return "field:" + o
-					}
-				}
-			}
+			return "field:" + ssax.FieldOwner(x)
+		case *ssa.Field:
+			return "field:" + ssax.FieldOwner(x)
 		case *ssa.FreeVar:
-			for _, b := range ssax.ParentBinding(y) {
+			for _, b := range ssax.ParentBinding(x) {
 				if al, ok := b.(*ssa.Alloc); ok {
 					return fmt.Sprintf("local:%s.%s", fname(al.Parent()), al.Comment)
 				}
 			}
+			return ""
 		case *ssa.Alloc:
-			if strings.HasPrefix(ssax.Deref(y.Type()).Underlying().String(), "chan") {
-				return fmt.Sprintf("local:%s.%s", fname(y.Parent()), y.Comment)
-			}
+			return fmt.Sprintf("local:%s.%s", fname(x.Parent()), x.Comment)
+		case *ssa.MakeChan:
+			// a local channel never stored in a cell: identify by its creation site
+			return fmt.Sprintf("local:%s.makechan@%d", fname(x.Parent()), x.Pos())
+		case *ssa.ChangeType:
+			v = x.X
+		case *ssa.Phi:
+			return ""
+		default:
+			return ""
 		}
 	}
 	return ""
